@@ -962,7 +962,7 @@ def handleSpec (name : String) (ins ans : List String) : String :=
   | "spec.c07.stream", [pb, ib, bs] =>
     match pb.toNat?, ib.toNat?, unhex bs with
     | some pb, some ib, some bs =>
-      verdict (ans == [rle ((Spec.specStates pb ib bs).map showLink)])
+      verdict ((if ans.isEmpty then [""] else ans) == [rle ((Spec.specStates pb ib bs).map showLink)])
         "link states are not those of the framing specification (burst must start at the first in-budget prefix window, keep bytes in order, end at the first over-budget invalid byte or the length cap; no prefix within 22 bytes: no burst)"
     | _, _, _ => "bad-op"
   | _, _ => "bad-op"
